@@ -430,8 +430,22 @@ static Result check_bezier(const J &c)
       r.inner_nt++;
       r.nontrivial = true;
       if (!std::isfinite(res.distance))
-        return Result::fail(spherical ? "bezier-spherical-no-foot" : "bezier-cartesian-no-foot",
-                            "no closest point reported although dense sampling finds an interior foot at distance " + fmt(bd) + " for query " + q.dump());
+        {
+          // Which root cause? The search runs one Newton iteration per segment, started at the planar projection of the point on the
+          // segment's chord. If the distance along the owning segment is not unimodal and that start lies in another basin than the
+          // foot (downhill from the start leads away from it), the iteration leaves the segment and nothing is reported: the listed
+          // single-start finding. Otherwise (the iteration is led to the foot and the foot is still not reported) it is something else.
+          const size_t seg = std::min(best / static_cast<size_t>(S + 1), pts.size() - 2);
+          const double t_foot = static_cast<double>(best % static_cast<size_t>(S + 1)) / S;
+          Point<2> near = cp;
+          if (spherical) { while (near[0] - pts[0][0] > PI) near[0] -= 2 * PI; while (near[0] - pts[0][0] < -PI) near[0] += 2 * PI; }
+          const Point<2> ch = pts[seg + 1] - pts[seg], pc = near - pts[seg];
+          const double est0 = std::min(1.0, std::max(0.0, (pc * ch) / (ch * ch)));
+          const double h = 1e-5, slope = (dist(curve(seg, est0 + h), cp) - dist(curve(seg, est0 - h), cp)) / (2 * h);
+          const bool leaves_basin = (t_foot - est0) * (-slope) < 0 && std::fabs(t_foot - est0) > 1e-3;
+          return Result::fail(std::string(spherical ? "bezier-spherical-" : "bezier-cartesian-") + (leaves_basin ? "single-start-leaves-the-basin-of-the-foot" : "no-foot"),
+                              "no closest point reported although dense sampling finds an interior foot at distance " + fmt(bd) + " (segment " + std::to_string(seg) + ", parameter " + fmt(t_foot) + "; the Newton start is at parameter " + fmt(est0) + " where the distance " + (slope > 0 ? "increases" : "decreases") + " with the parameter) for query " + q.dump());
+        }
       if (res.index + 1 >= pts.size() || !(res.parametric_fraction >= -1e-6 && res.parametric_fraction <= 1 + 1e-6))
         return Result::fail("bezier-parameter", "reported index/parameter out of range");
       const Point<2> on = curve(res.index, res.parametric_fraction);
@@ -458,6 +472,11 @@ static Result check_bezier(const J &c)
           if (local_min)
             return Result::fail(spherical ? "bezier-spherical-local-minimum-not-global" : "bezier-cartesian-local-minimum-not-global",
                                 "the reported closest point is only a local minimiser of the distance along the curve: it is at " + fmt(dr) + " while a sampled curve point is at " + fmt(bd) + " (curve length " + fmt(L) + "), query " + q.dump());
+          // a mirror-symmetric arc queried on its axis: the middle coordinate is a stationary point of the distance by symmetry, the
+          // iteration starts exactly there and stops (derivative zero) although it is a maximum between two symmetric minima
+          if (c.has("symmetric") && std::fabs(res.point[0] - pts[pts.size() / 2][0]) <= 1e-12 * (1 + std::fabs(res.point[0])) && std::fabs(cp[0] - pts[pts.size() / 2][0]) <= 1e-12 * (1 + std::fabs(cp[0])))
+            return Result::fail(spherical ? "bezier-spherical-stationary-point-on-symmetry-axis" : "bezier-cartesian-stationary-point-on-symmetry-axis",
+                                "the reported closest point is the middle coordinate of a mirror-symmetric arc (a stationary point of the distance, here a local maximum along the curve): it is at " + fmt(dr) + " while a sampled curve point is at " + fmt(bd) + " (curve length " + fmt(L) + "), query " + q.dump());
           return Result::fail(spherical ? "bezier-spherical-not-closest" : "bezier-cartesian-not-closest",
                             "a sampled curve point is closer (" + fmt(bd) + ") than the reported closest point (" + fmt(dr) + "), curve length " + fmt(L) + ", query " + q.dump());
         }
